@@ -281,6 +281,7 @@ fn iso_check<'a>(pool: &'a IsoPool, rep: &'a Report) -> impl Fn(&QueryCase) -> C
 }
 
 pub fn run(env: &Env, rep: &Report) {
+    MAX_SHRINK_ITERS.store(200, std::sync::atomic::Ordering::Relaxed);
     rep.set_rule("store contents (0..6 tracks with 0..3 observations in 3 classes, mixed groups = compatibility and mixed Pending/Ready/Wasted/error status), foreign candidate batches (ids may equal stored ids) or owned id lists (incl. missing ids), both only_baked settings, all()/iterator, shard counts 1..4, and a plan that totally orders every Distances command (FIFO per shard) and the caller's own step of the owned query; all command-granularity interleavings for scenarios with <= 6 commands, random plans and delays otherwise. Oracle: sequential definition with the harness-owned metric; multiset of (from, to, attribute metric, feature distance), error count, store unchanged. Non-trivial: >=2 candidates on >=2 shards under an achieved non-default order, or an owned query with >=2 mutually compatible candidates; distinct = distinct serialized case");
     rep.assume("cases run in child processes (one global hook callback per process); gate waits are bounded (300 ms), an expired wait is counted as plan deviation and never as a failure");
     let pool = IsoPool::new(&env.prop, "query", std::time::Duration::from_secs(60));
